@@ -170,6 +170,14 @@ CHECKS = {
         "Bound: depth <=2 (quick) / 3 (thorough), 6 base types, 10 wrappers. Array / parenthesised type-ids are not re-parsed in template-argument position (parser finding D20 of C02). AnonymousName is outside (documented unstable).",
         "DESIGN.md 3/C17",
     ),
+    "C01": (
+        "model_checking",
+        "CrossHair (z3) exhaustive exploration of an AST-first declaration grammar (8 form families x variations x 7 scopes x 7 ignored decorations; ordered pairs in the thorough tier) on the real parser against independently built ParsedData, plus a type-conformance walk; ParsedTypeModifiers.validate with symbolic booleans",
+        "Every program of the grammar inside the bound is parsed by the real parser and must equal the ParsedData built from its abstract syntax (one entry per declarator, in order, in the scope where it was written, same names / types / specifiers / parameters / defaults / template headers / flags), and every object must conform to the published dataclass field types; "
+        "validate is confirmed over all paths for all combinations of specifier sets and flags.",
+        "Bound: single declarations (quick: reduced variation pools) and ordered pairs (thorough); scope depth <=2; fixed identifier spelling. Expressions inside values are C14, deep declarators C02.",
+        "DESIGN.md 3/C01",
+    ),
 }
 
 NOT_YET = "no check landed yet in this build (planned engine and bounds: DESIGN.md section 3); not claimed until the check runs green"
